@@ -53,6 +53,14 @@ Theorem C08_arity_constants_from_source :
   MAX_ARITY = (2 ^ src_SYMBOL_ARITY_LENGTH - 1)%N.
 Proof. exact arity_constants_tied. Qed.
 
+(* D14 in the model: rules of an earlier right operand left in a table shared with the left operand do not change the left operand's
+   language, yet they become live in a later union with a right operand that re-uses the state numbers *)
+Theorem C08_ud_garbage_becomes_live :
+  disjoint (states dA) (states dB) /\ disjoint (states dA) (states dC) /\
+  (forall t, accepts (polluted dA dB) t <-> accepts dA t) /\
+  exists t, accepts (ta_app (polluted dA dB) dC) t /\ ~ accepts dA t /\ ~ accepts dC t.
+Proof. exact ud_garbage_becomes_live. Qed.
+
 Print Assumptions C08_frame.
 Print Assumptions C08_arity_prefix_injective.
 Print Assumptions C08_arity_prefix_guard_needed.
@@ -67,3 +75,4 @@ Print Assumptions C08_no_useless.
 Print Assumptions C08_shared_union_exact.
 Print Assumptions C08_shared_isect_refuted.
 Print Assumptions C08_arity_constants_from_source.
+Print Assumptions C08_ud_garbage_becomes_live.
